@@ -108,6 +108,11 @@ pub struct DictSpec {
 pub struct TokOpts {
     pub ignore_space: bool,
     pub max_grouping_len: usize,
+    /// How the options are put in place (the final values are the two fields above):
+    /// 0 = each setter called once on a fresh tokenizer; other values select a history of earlier
+    /// setter calls with other values and the order of the setters (see `refmodel::make_tokenizer_h`).
+    #[serde(default)]
+    pub history: u8,
 }
 
 // ---------------------------------------------------------------------------------------------
